@@ -2,6 +2,8 @@
 //   hgsim            read one scenario from stdin, run it, print the event log (JSON lines) on stdout
 //   hgsim --server   fork server: scenarios separated by a line "END"; each runs in a forked child of the warmed-up
 //                    parent (same process history for every scenario); the parent prints {"k":"exit",...} after each.
+#include <sys/personality.h>
+#include <unistd.h>
 #include "common.h"
 
 #include <hgraph/lib/std/operators/registration.h>
@@ -67,6 +69,20 @@ static void warm_up()
 
 int main(int argc, char **argv)
 {
+    // One more source of nondeterminism behind a seam: address-space layout randomisation. Addresses steer hash-table
+    // probe lengths and pointer-ordered containers, i.e. the number of function calls between two events - which is the
+    // clock of the instrumented build's pre-emption points (and once changed a wiring error message). The harness re-executes
+    // itself once with ADDR_NO_RANDOMIZE so that a scenario sees the same addresses in every process.
+    if (getenv("HGSIM_ASLR_OFF") == nullptr)
+    {
+        const int pers = personality(0xffffffff);
+        if (pers != -1 && !(pers & ADDR_NO_RANDOMIZE) && personality(pers | ADDR_NO_RANDOMIZE) != -1)
+        {
+            setenv("HGSIM_ASLR_OFF", "1", 1);
+            execv("/proc/self/exe", argv);
+        }
+        setenv("HGSIM_ASLR_OFF", "0", 1);     // not permitted here: carry on with randomised addresses
+    }
     signal(SIGSEGV, on_crash);
     signal(SIGABRT, on_crash);
     signal(SIGBUS, on_crash);
@@ -86,6 +102,10 @@ int main(int argc, char **argv)
         (void)!::write(1, ready, sizeof ready - 1);
     }
     std::string text, line;
+    // the parent's heap must look the same whatever scenarios went before: every child then starts from the same allocator
+    // state (addresses steer probe lengths and with them the function-call clock of the instrumented build)
+    text.reserve(8u << 20);
+    line.reserve(4u << 20);
     while (std::getline(std::cin, line))
     {
         if (line != "END") { text += line; text += "\n"; continue; }
